@@ -22,7 +22,7 @@ def injected_exception(kind, msg):
     (`except LinAlgError: use the previous model`) is only exercised if that very type is injected."""
     import numpy as np
     base = {"MemoryError": MemoryError, "LinAlgError": np.linalg.LinAlgError, "FloatingPointError": FloatingPointError,
-            "ZeroDivisionError": ZeroDivisionError, "OverflowError": OverflowError}.get(kind, MemoryError)
+            "ZeroDivisionError": ZeroDivisionError, "OverflowError": OverflowError, "ValueError": ValueError}.get(kind, MemoryError)
     if base is MemoryError:
         return Injected(msg)
     return type("Injected" + base.__name__, (base,), {})(msg)
